@@ -233,7 +233,7 @@ def find_fns(toks):
             j = i + 1
             while j < len(toks) and not toks[j].code:
                 j += 1
-            if j < len(toks) and toks[j].kind == 'ident':
+            if j < len(toks) and (toks[j].kind == 'ident' or toks[j].text == '$'):
                 res.append(i)
     return res
 
@@ -324,6 +324,7 @@ def merge(annotated_code, anns, new_code, body_hints=True):
     # old token index of each annotation
     starts = [t.start for t in old]
     placed = {}   # new token index -> [text]
+    lost_clauses = []
     hoisted = []
     lost = 0
     import bisect
@@ -362,6 +363,7 @@ def merge(annotated_code, anns, new_code, body_hints=True):
         if _is_clause(txt) and not _clause_context_ok(new, j):
             # e.g. a loop invariant whose `while` became an `if`: the hint cannot be placed; drop it
             lost += 1
+            lost_clauses.append(txt.strip().split('\n')[0][:80])
             continue
         placed.setdefault(j, []).append(txt)
     out = []
@@ -374,11 +376,13 @@ def merge(annotated_code, anns, new_code, body_hints=True):
         out.append(t.text)
     if len(new) in placed:
         out.append('\n' + '\n'.join(placed[len(new)]) + '\n')
+    merge.last_lost_clauses = lost_clauses
     return ''.join(out), hoisted, drift, lost
 
 
 def _is_clause(txt):
-    w = txt.strip().split(None, 1)
+    lines = [l for l in txt.split('\n') if l.strip() and not l.strip().startswith('//')]
+    w = lines[0].strip().split(None, 1) if lines else []
     return bool(w) and w[0] in ('invariant', 'invariant_except_break', 'decreases', 'ensures', 'requires', 'recommends')
 
 
@@ -444,6 +448,8 @@ def _clause_context_ok(new, j):
     depth = 0
     while k >= 0:
         t = new[k]
+        if t.kind == 'punct' and t.text == '}' and depth == 0:
+            break   # end of the previous block statement: a loop / fn header contains no block at depth 0
         if t.kind == 'punct' and t.text in ')]}':
             depth += 1
         elif t.kind == 'punct' and t.text in '([{':
@@ -750,6 +756,11 @@ def build(entries, verify_units, repo=None, extra_false_ensures=False):
             log = {}
             new_code = normalize_item(L.text, log)
             merged, hoisted, drift, lost = merge(code, anns, new_code)
+            if lost and drift == 0:
+                raise GenError('%s: %d annotation(s) cannot be placed although the code is unchanged (contract file error)' % (e.key, lost))
+            if lost and any(c.split()[0] in ('requires', 'ensures') for c in merge.last_lost_clauses):
+                # a contract clause (not a proof hint) lost its anchor: never verify silently without it
+                raise GenError('%s: contract clause lost its anchor after a source change: %s' % (e.key, merge.last_lost_clauses))
             if lost:
                 # a hint could not be placed: later hints may depend on its ghost variables, so all
                 # body-level hints of this item are dropped; contracts (fn-level clauses) stay
